@@ -93,8 +93,10 @@ class C08(Prop):
     budgets = {"quick": 250, "thorough": 4000}
 
     def cases(self, rng: random.Random, tier: str) -> Iterable[dict]:
+        C08._variant = -1
+        forced = [0.05, 0.14, 0.18, 0.18, 0.18, 0.18, 0.18, 0.23] * 2      # every dedicated family, whatever the seed
         while True:
-            r = rng.random()
+            r = forced.pop() if forced else rng.random()
             if r < 0.12:
                 c = self._entry_bypass(rng)
             elif r < 0.16:
@@ -194,15 +196,16 @@ class C08(Prop):
     def _inner_binding_renamed(rng: random.Random) -> dict:
         """inner: f(k, u) -> r with k BOUND on the inner graph; the wrapper renames k -> k2 (sometimes not); the outer graph has an unrelated
         node reading a parameter called k (or k2): the inner binding must be visible under the wrapper's CURRENT name only."""
-        how = rng.choice(["bound", "bound", "default"])
+        how = "default" if getattr(C08, "_variant", -1) % 4 == 2 else "bound"
         inner = {"name": "inner", "nodes": [{"name": "f", "kind": "fn", "params": [["k", {"d": 7} if how == "default" else None], ["u", None]], "dataOuts": ["r"],
                                              "body": {"b": "tag", "t": "f"}}],
                  "bound": [["k", rng.randint(1, 9)]] if how == "bound" else []}
         # the wrapper renames k away, not at all, or onto a name the inner graph ALSO uses (a swap k <-> u, or a shift u -> w, k -> u in one call):
         # the binding / default must follow the parameter, not the name
-        ren = rng.choice([[["k", "k2"]], [["k", "k2"]], [], [["k", "u"], ["u", "k"]], [["u", "w"], ["k", "u"]]])
+        C08._variant = getattr(C08, "_variant", -1) + 1      # the wrapper shapes are visited in turn (every shape, whatever the seed)
+        ren = [[["k", "k2"]], [], [["k", "u"], ["u", "k"]], [], [["u", "w"], ["k", "u"]]][C08._variant % 5]
         wrapper = {"name": "w", "kind": "graph", "inner": 0, "inRen": ren, "outRen": []}
-        other_param = rng.choice(["k", "k", "k2"])
+        other_param = "k" if (C08._variant // 5) % 3 != 2 else "k2"
         exposed = {"k": dict(ren).get("k", "k"), "u": dict(ren).get("u", "u")}
         if how == "default" and other_param == exposed["k"]:
             other_param = "k2" if exposed["k"] != "k2" else "k"     # (a default inside and none outside for ONE name is rejected by design)
